@@ -134,12 +134,98 @@ func ruleCutAtUkeyBoundary(p *Prog, r *Report, rule string) {
 		// one operand is the current entry's user key
 		return ukey(c.Call.Args[1]) || ukey(c.Call.Args[2])
 	}
+	// the remembered key: the other operand of the boundary comparison
+	var lastVals []ssa.Value
+	instrs(fn, func(_ *ssa.BasicBlock, _ int, in ssa.Instruction) {
+		if c, ok := in.(*ssa.Call); ok && ucmp(c) {
+			for _, a := range c.Call.Args[1:] {
+				if !ukey(a) {
+					lastVals = append(lastVals, a)
+				}
+			}
+		}
+	})
+	isLast := func(v ssa.Value) bool {
+		for _, l := range lastVals {
+			if l == v {
+				return true
+			}
+		}
+		return false
+	}
+	// "a previous user key exists": the boolean flag, or — if the code uses a nil sentinel — a
+	// non-nil remembered key (the sentinel form is then checked for soundness below).
+	nilForm := 0
+	hasPrev := Atom{Name: "hasLastUkey", Match: func(cond ssa.Value) (int, int) {
+		if hasLast(cond) {
+			return +1, -1
+		}
+		if x, trueNonNil, ok := condNilTest(cond); ok && isLast(x) {
+			nilForm++
+			if trueNonNil {
+				return +1, -1
+			}
+			return -1, +1
+		}
+		return 0, 0
+	}}
 	atoms := []Atom{
-		boolAtom("hasLastUkey", hasLast),
+		hasPrev,
 		cmpAtom("uCompare(lastUkey,ukey)!=0", token.NEQ, ucmp, mConstInt(0)),
 	}
 	checkGuard(p, r, GuardSpec{Rule: "cut-at-ukey-boundary", Fn: fn, Starts: after(fn, parse), Target: evCall("(*leveldb.tableCompactionBuilder).flush"), TargetDesc: "the in-loop b.flush() (output table rotation)",
 		Atoms: atoms, G: func(a []bool) bool { return !a[0] || a[1] }, GDesc: "¬hasLastUkey ∨ uCompare(lastUkey, ukey) ≠ 0", Avoid: orPred(parse, next), MinTargets: 1})
+	if nilForm > 0 {
+		// nil is used as the "no key yet" sentinel: every assignment of a real key must be provably
+		// non-nil, or the EMPTY user key is indistinguishable from "no key yet" (append(x[:0], k...)
+		// and append([]byte(nil), k...) are nil for a nil x / empty k).
+		r.Site(1)
+		bad := ""
+		seen := map[ssa.Value]bool{}
+		var nonNil func(v ssa.Value) bool
+		nonNil = func(v ssa.Value) bool {
+			switch x := v.(type) {
+			case *ssa.MakeSlice:
+				return true
+			case *ssa.Slice:
+				return nonNil(x.X)
+			case *ssa.Call:
+				if isCallTo(x, "builtin:append") {
+					return nonNil(x.Call.Args[0])
+				}
+			}
+			return false
+		}
+		var walk func(v ssa.Value)
+		walk = func(v ssa.Value) {
+			if seen[v] {
+				return
+			}
+			seen[v] = true
+			switch x := v.(type) {
+			case *ssa.Phi:
+				for _, e := range x.Edges {
+					walk(e)
+				}
+				return
+			case *ssa.Const:
+				if x.Value == nil {
+					return
+				}
+			}
+			if !nonNil(v) {
+				if in, ok := v.(ssa.Instruction); ok {
+					bad = p.Pos(in.Pos())
+				} else {
+					bad = v.String()
+				}
+			}
+		}
+		for _, l := range lastVals {
+			walk(l)
+		}
+		r.Check(bad == "", fnName(fn), "nil-sentinel-sound", "when nil stands for 'no user key seen yet', every remembered key is provably non-nil (the empty user key must not look like 'no key yet')", "the remembered key assigned at "+bad+" can be nil for the empty user key (append onto a nil/[:0] base): all versions of \"\" are treated as first occurrences — never dropped, and cut across output tables", bad)
+	}
 	// the comparison is between the remembered key and the current key
 	n := countInstr(fn, func(in ssa.Instruction) bool { c, ok := in.(*ssa.Call); return ok && ucmp(c) })
 	r.Check(n >= 1, fnName(fn), "compares-current-ukey", "the boundary test compares lastUkey with the current entry's user key through the comparer", "no uCompare(.., ukey) found", p.Pos(fn.Pos()))
